@@ -124,7 +124,7 @@ def r_budget(prog, R):
 
 
 def r_resend(prog, R, rid="R-C06-RESEND"):
-    r = R.rule(rid, "each un-budgeted protocol resend first disables its own guard", floor=3, analysis="A-DOM (table of 3)")
+    r = R.rule(rid, "each un-budgeted protocol resend first disables its own guard (EDNS: OPT removed; TC: once per query, on a UDP connection only)", floor=4, analysis="A-DOM (table of 3)")
     f = prog.func("process_answer")
     mf = MustFacts(f)
     apps = f.calls_to("ares_append_requeue")
@@ -158,6 +158,21 @@ def r_resend(prog, R, rid="R-C06-RESEND"):
             else:
                 r.viol("tc-upgrade guarded and switches to TCP", f.name, f.loc(c["ln"]),
                        "TC resend must be guarded by TC && !TCP-conn && !IGNTC and set query->using_tcp first (not_tcp=%s not_igntc=%s sets_tcp=%s)" % (not_tcp, not_ign, set_in_block))
+            # ... and the upgrade happens once: a truncated datagram for a query that is already on TCP (a duplicate, or a belated reply on the UDP socket
+            # that stays open) must not queue another TCP transmission -- the TC resend is not charged to try_count, so nothing else bounds it
+            sidx = [j for j, el in enumerate(b.els[:i]) if el["k"] == "asg" and is_field(el["e"]["l"], "using_tcp", "ares_query")]
+            f0 = mf.cond_facts_at(b, sidx[0] if sidx else 0)
+            once = False
+            for cc, p in f0:
+                op, l, rr = norm_cmp(cc, p)
+                if is_field(l, "using_tcp", "ares_query") and (op == "false" or (op in ("==", "!=") and rr is not None and ((name_of_const(rr) == "ARES_FALSE") == (op == "==")))):
+                    once = True
+            if once:
+                r.ok("tc-upgrade happens once per query", f.loc(c["ln"]))
+            else:
+                r.viol("tc-upgrade happens once per query", f.name, f.loc(c["ln"]), "every truncated datagram that matches the query queues a TCP transmission, also when the query was already switched to TCP: a server that "
+                       "sends K copies of a TC reply (or replies late on the still open UDP socket) makes the library transmit the query K times over TCP; the TC resend is not charged to try_count, so the "
+                       "number of transmissions is bounded by what the server sends, not by servers x tries + 1")
         else:
             r.viol("unknown-resend#%d" % c["id"], f.name, f.loc(c["ln"]), "deferred resend that is neither the EDNS downgrade nor the TC upgrade")
     for need in ("edns", "tc"):
